@@ -597,8 +597,8 @@ Definition rename (s : fsys) (v : view) (oldpath newpath : str) : fsys * res :=
              let same := str_eqb (pi_path (sr_pi ro)) (pi_path (sr_pi rn))
                          || match sr_child rn with Some nc => Nat.eqb nc oc | None => false end in
              let ndir := match sr_child rn with Some nc => node_is_dir h nc | None => false end in
-             (* decided before any permission check: a directory onto a directory (as os.Rename), a file or a
-                symbolic link onto itself or onto another hard link of itself (as rename(2)) *)
+             (* decided before any permission check: a directory onto a directory (as os.Rename), a directory into
+                itself, a file or a symbolic link onto itself or onto another hard link of itself (as rename(2)) *)
              let early : option res :=
                match get h oc with
                | Some (NDir _ _) =>
@@ -607,6 +607,10 @@ Definition rename (s : fsys) (v : view) (oldpath newpath : str) : fsys * res :=
                               && negb (str_eqb oldpath newpath)
                            then ROk
                            else RFail (if win v then EW_AccessDenied else sr_err rn))
+                   (* the root directory, or a directory moved into itself (as rename(2): before the permissions) *)
+                   else if Nat.eqb oc op || Nat.eqb oc np
+                           || is_prefix (pi_path (sr_pi ro) ++ [sepc (v_os v)]) (pi_path (sr_pi rn))
+                   then Some (RFail EInvalidArgument)
                    else None
                | Some _ => if same then Some ROk else None
                | None => None
@@ -615,17 +619,14 @@ Definition rename (s : fsys) (v : view) (oldpath newpath : str) : fsys * res :=
              | Some r => (s, r)
              | None =>
              if negb (perm_on h op OpenWrite (v_user v)) then (s, RFail EPermDenied)
-             else if negb (Nat.eqb oc op) && sticky_refuses h op oc (v_user v) then (s, RFail EOpNotPermitted)
+             else if sticky_refuses h op oc (v_user v) then (s, RFail EOpNotPermitted)
              else if negb (Nat.eqb np op) && negb (perm_on h np OpenWrite (v_user v)) then (s, RFail EPermDenied)
              else
                let move (h0 : heap) :=
                  (with_heap s (remove_child (add_child h0 np (pi_part (sr_pi rn)) oc) op (pi_part (sr_pi ro))), ROk) in
                match get h oc with
                | Some (NDir _ mo) =>
-                   if Nat.eqb oc op
-                      || is_prefix (pi_path (sr_pi ro) ++ [sepc (v_os v)]) (pi_path (sr_pi rn))
-                   then (s, RFail EInvalidArgument)
-                   else if negb (is_not_exist (sr_err rn))
+                   if negb (is_not_exist (sr_err rn))
                    then (s, RFail (if win v then EW_AccessDenied else ENotADirectory))
                    (* a directory moved to another directory: write permission on the directory itself *)
                    else if negb (Nat.eqb np op) && negb (us_admin (v_user v))
